@@ -13,9 +13,25 @@ use crate::val::{Ev, Outcome, Val};
 
 pub struct C15;
 
+thread_local! {
+    /// relative perturbation applied to the result of every tolerance-checked (inexact) operation
+    static FUZZ: std::cell::Cell<f64> = std::cell::Cell::new(1.0);
+}
+
+/// Run `f` with the results of inexact operations (°, rad, transcendental functions, non-integer
+/// factorials) scaled by `fuzz`: the evaluators may legitimately differ from the reference in the last
+/// bits of such values, so a restriction that only holds for one rounding is not a restriction that holds.
+pub fn with_fuzz<T>(fuzz: f64, f: impl FnOnce() -> T) -> T {
+    FUZZ.with(|c| c.set(fuzz));
+    let r = f();
+    FUZZ.with(|c| c.set(1.0));
+    r
+}
+
 /// Plain double evaluation of every node, reporting each intermediate value to `visit`; used only to
 /// decide whether an expression lies inside the restricted shared domain.
 pub fn loose(ast: &Ast, ph: f64, visit: &mut dyn FnMut(&Ast, f64)) -> Option<f64> {
+    let fz = FUZZ.with(|c| c.get());
     let v = match ast {
         Ast::Lit(t) => rf::parse_lit(t),
         Ast::Pi(_) => rf::PI,
@@ -45,10 +61,14 @@ pub fn loose(ast: &Ast, ph: f64, visit: &mut dyn FnMut(&Ast, f64)) -> Option<f64
             if r.v.is_nan() {
                 return None;
             }
-            r.v
+            if matches!(r.q, rf::Q::Rel(_)) {
+                r.v * fz
+            } else {
+                r.v
+            }
         }
-        Ast::Deg(a) => loose(a, ph, visit)? * rf::PI / 180.0,
-        Ast::Rad(a) => loose(a, ph, visit)? * 180.0 / rf::PI,
+        Ast::Deg(a) => loose(a, ph, visit)? * rf::PI / 180.0 * fz,
+        Ast::Rad(a) => loose(a, ph, visit)? * 180.0 / rf::PI * fz,
         Ast::Call(f, _, args) => {
             let mut xs = vec![];
             for a in args {
@@ -68,7 +88,11 @@ pub fn loose(ast: &Ast, ph: f64, visit: &mut dyn FnMut(&Ast, f64)) -> Option<f64
                     if r.v.is_nan() {
                         return None;
                     }
-                    r.v
+                    if matches!(r.q, rf::Q::Exact | rf::Q::NumEq) {
+                        r.v
+                    } else {
+                        r.v * fz
+                    }
                 }
             }
         }
@@ -255,17 +279,24 @@ impl Monitor for C15 {
                     _ => return Verdict::Skip("not-a-specified-sentence"),
                 };
                 // restriction: every intermediate finite, below 2^53, never a negative zero; no Integer^negative Integer
-                let mut ok = true;
                 let mut neg_pow = false;
-                let top = loose(&p.ast, ph, &mut |node, v| {
-                    if !v.is_finite() || v.abs() >= 9007199254740992.0 || (v == 0.0 && v.is_sign_negative()) {
-                        ok = false;
-                    }
-                    let _ = node;
-                });
                 check_neg_pow(&p.ast, ph, &mut neg_pow);
-                if top.is_none() || !ok || neg_pow {
+                if neg_pow {
                     return Verdict::Skip("outside-shared-domain");
+                }
+                // the restriction must hold whichever way the inexact operations round
+                for fuzz in [1.0, 1.0 + 1e-13, 1.0 - 1e-13] {
+                    let mut ok = true;
+                    let top = with_fuzz(fuzz, || {
+                        loose(&p.ast, ph, &mut |_, v| {
+                            if !v.is_finite() || v.abs() >= 9007199254740992.0 || (v == 0.0 && v.is_sign_negative()) {
+                                ok = false;
+                            }
+                        })
+                    });
+                    if top.is_none() || !ok {
+                        return Verdict::Skip("outside-shared-domain");
+                    }
                 }
                 let a = sut::call(Ev::F64, s, &case.phs[0]);
                 let b = sut::call(Ev::Num, s, &case.phs[1]);
